@@ -307,3 +307,82 @@ Print Assumptions C07_lookup_is_vector_equality.
 Print Assumptions C07_point_algebra_normal_form.
 Print Assumptions C07_differentiable_sum_has_differentiable_terms.
 Print Assumptions C07_class_leaf_one_gradient.
+
+(** ** STEP calls on leaf and composite functions
+    The primitive steps (PEPit/primitive_steps) reach the bookkeeping only through [oracle], [value], [add_point]
+    and fresh leaves.  Model/StepsFunc.v runs the step programs that translator/tr_steps.py regenerates from their
+    sources (any program of that step language) over THIS model's state; every bookkeeping instruction is one
+    op of the op language above with its side conditions ([C07_step_instruction_is_op]; the step hands over the
+    dictionary of the point object it built, where the op carries the term), so the invariant is preserved by
+    every step applied to any function, leaf or composite, under the guard [StepsFunc.ok_prog] = [op_scoped] and
+    [op_guard] of each instruction evaluated along the execution.  Proofs/C08Composite.v; the instances for the
+    8 generated programs and the examples on F = f0 + 2 f1 are in Props/C08.v. *)
+From PV Require Model.StepsRT Model.StepsFunc Proofs.C08Composite.
+
+Theorem C07_step_instruction_is_op :
+  forall (a : StepsRT.args) (tp : nat -> pterm) (i : StepsRT.sinstr) (e : StepsRT.env) (s : state) (cs : StepsFunc.clog),
+  (forall v, StepsRT.e_p e v = pt (tp v)) ->
+  match C08Composite.op_of a tp e i with
+  | Some o =>
+      (exists e', StepsFunc.exec_s a i (e, (s, cs)) = inl (e', (step s o, cs))) /\
+      StepsFunc.guard_s a i (e, (s, cs)) = (op_scoped s o && op_guard s o)%bool
+  | None =>
+      StepsFunc.guard_s a i (e, (s, cs)) = true /\
+      match StepsFunc.exec_s a i (e, (s, cs)) with
+      | inl (_, (s', _)) => s' = s
+      | inr (_, (_, (s', _))) => s' = s
+      end
+  end.
+Proof. exact C08Composite.exec_s_is_func_op. Qed.
+
+Theorem C07_inv_step_program :
+  forall (prog : StepsRT.program) (a : StepsRT.args) (s : state) (cs : StepsFunc.clog),
+  inv s -> StepsFunc.ok_prog prog a (s, cs) = true -> inv (StepsFunc.run_state prog a (s, cs)).
+Proof. exact C08Composite.run_inv_steps. Qed.
+
+(** oracle / gradient / value / stationary-point / fixed-point / add_point calls in any order, THEN a step *)
+Theorem C07_inv_ops_then_step_program :
+  forall (ops : list op) (prog : StepsRT.program) (a : StepsRT.args) (cs : StepsFunc.clog),
+  ops_ok ops = true -> StepsFunc.ok_prog prog a (run ops, cs) = true ->
+  inv (StepsFunc.run_state prog a (run ops, cs)).
+Proof. exact C08Composite.run_inv_steps_after_ops. Qed.
+
+(** ... and any further ops after the step (the invariant is all [C07_inv_step] needs) *)
+Theorem C07_inv_step_program_then_ops :
+  forall (prog : StepsRT.program) (a : StepsRT.args) (s : state) (cs : StepsFunc.clog) (ops : list op),
+  inv s -> StepsFunc.ok_prog prog a (s, cs) = true ->
+  run_ok (StepsFunc.run_state prog a (s, cs)) ops = true ->
+  inv (fold_left step ops (StepsFunc.run_state prog a (s, cs))).
+Proof. exact (fun prog a s cs ops Hinv Hok => run_inv ops _ (C08Composite.run_inv_steps prog a s cs Hinv Hok)). Qed.
+
+(** I3 after a step: every sample of every composite is the weighted sum of samples of its terms at that point *)
+Theorem C07_step_program_composite_sample_is_weighted_sum :
+  forall (prog : StepsRT.program) (a : StepsRT.args) (s : state) (cs : StepsFunc.clog),
+  inv s -> StepsFunc.ok_prog prog a (s, cs) = true ->
+  let s' := StepsFunc.run_state prog a (s, cs) in
+  forall F t, (F < nfun s)%nat -> f_leaf (getf s F) = false -> In t (f_pts (getf s' F)) ->
+    exists ch : nat -> sample,
+      (forall i q, In (i, q) (f_w (getf s' F)) ->
+         In (ch i) (f_pts (getf s' i)) /\ dict_eqb Nat.eqb (xof (ch i)) (xof t) = true) /\
+      forall (E : ips) (rho : nat -> E) (phi : nat -> R),
+        veq (evalP rho (gof t)) (wlin rho (f_w (getf s' F)) (fun i => gof (ch i))) /\
+        evalE rho phi (vof t) = wsum rho phi (f_w (getf s' F)) (fun i => vof (ch i)).
+Proof. exact C08Composite.run_composite_samples. Qed.
+
+(** non-vacuity: a hand-written proximal-step program (x = x0 - gx/2; F.add_point((x, gx, fx))) on F = f0 + 2 f1
+    after the sequence [ops_example] above (F is function 2, evaluated three times, one stationary point) *)
+Example C07_step_program_example :
+  let prog := [StepsRT.I (StepsRT.FreshPoint 1); StepsRT.I (StepsRT.FreshExpr 0);
+               StepsRT.I (StepsRT.LetP 2 (PSub (PVar 0) (PScal (SPar 0) (PVar 1))));
+               StepsRT.I (StepsRT.AddPoint 0 2 1 0); StepsRT.Return [StepsRT.RetP 2; StepsRT.RetP 1; StepsRT.RetX 0]] in
+  let a := StepsRT.mk_args [[(0%nat, 1%Q)]] [2%nat] [(1 # 2)%Q] [] in
+  ops_ok ops_example = true /\ StepsFunc.ok_prog prog a (run ops_example, []) = true /\
+  inv_b (StepsFunc.run_state prog a (run ops_example, [])) = true /\
+  length (f_pts (getf (StepsFunc.run_state prog a (run ops_example, [])) 2%nat)) = 5%nat.
+Proof. vm_compute. repeat split; reflexivity. Qed.
+
+Print Assumptions C07_step_instruction_is_op.
+Print Assumptions C07_inv_step_program.
+Print Assumptions C07_inv_ops_then_step_program.
+Print Assumptions C07_inv_step_program_then_ops.
+Print Assumptions C07_step_program_composite_sample_is_weighted_sum.
